@@ -182,12 +182,15 @@ theorem headerLoop_exhausted (strip : Int) (fuel : Nat) (st : HState) (heof : st
 
 /-! ### a stream of inert lines only -/
 
-/-- the header scan over text that is inert to its end: nothing is found, the patch is returned as it was given,
-    and the parser is back at the start of the text -/
+/-- the header scan over text that is inert to its end: nothing is found — no first hunk, so the format of the
+    returned patch is `unknown` WHATEVER format `pt` was given with (a format forced by -u / -c / -n included);
+    the rest of the patch is returned as it was given, and the parser is back at the start of the text.
+    (Before the `foundFirstHunk` rule the result was `pt` itself with `format := pt.format`.) -/
 theorem parseHeader_filler (strip : Int) (par : Parser) (pt : Patch)
     (hin : ∀ l ∈ par.s.rest, inertLine l.content = true) (hterm : ∀ l ∈ par.s.rest, l.newline ≠ .none)
     (heof : par.s.eof = false) (hbad : par.s.bad = false) :
-    parseHeader par pt strip = .ok (true, pt, { linesTillFirstHunk := 0, format := pt.format }, par) := by
+    parseHeader par pt strip =
+      .ok (true, { pt with format := .unknown }, { linesTillFirstHunk := 0, format := .unknown }, par) := by
   unfold parseHeader
   have h := headerLoop_skip strip par.s.rest { par := par, patch := pt } (by simpa [inertFor] using hin) hterm
     (Or.inr calm_unknown) heof hbad [] (by simp) 2
